@@ -80,7 +80,7 @@ func (f Nth) remove(value any) (out any, changed bool) {
 	return
 }
 
-func (f Nth) locate(pp Expr, data any, rest Expr, max int) (locs []Expr) {
+func (f Nth) locate(pp Expr, data any, rest Expr, max int, root any) (locs []Expr) {
 	var (
 		v   any
 		has bool
@@ -115,7 +115,7 @@ func (f Nth) locate(pp Expr, data any, rest Expr, max int) (locs []Expr) {
 		v, has = reflectGetNth(td, i)
 	}
 	if has {
-		locs = locateNthChildHas(pp, Nth(i), v, rest, max)
+		locs = locateNthChildHas(pp, Nth(i), v, rest, max, root)
 	}
 	return
 }
